@@ -543,6 +543,8 @@ def run_bundle(sess, acc, gen, rnd, S, rows):
     if not same_result(res2, ret):
       sess.violation('returned_ids', 'upsert %s on rows %s returned %r, the specification gives %r' % (
           a, {r: M[r] for r in sorted(M)}, ret, res2), {'bundle': bundle, 'ret': reply.ret, 'expected': res2})
+      acc.case(case_hash(info, out2), sample)
+      return S1, read_rows(S1)       # what follows in the bundle ran on a table the model does not describe
     nontrivial = any(o in ('add', 'first_of_many', 'all_of_many', 'one') for o in out2)
     acc.case(case_hash(info, out2) if nontrivial else None, sample if nontrivial else None)
     M = M2
